@@ -120,6 +120,10 @@ AUG_DUNDER = {'Add': '__iadd__', 'Sub': '__isub__', 'Mult': '__imul__', 'BitOr':
 # reported -- except for the following audited statements (module, function, statement text) whose
 # operand is an immutable value (datetime / int); the list is emitted into the Coq file.
 BENIGN_AUG = {
+    ('codecs.ber', 'encode_real', 'data *= -1'):
+        'data is a float (compared with float(inf), passed to math.isnan / math.frexp above and below)',
+    ('codecs.per', 'append_constrained_whole_number', 'value -= minimum'):
+        'value is an integer (appended with append_non_negative_binary_integer, which shifts it)',
     ('codecs', 'restricted_utc_time_from_datetime', 'date -= date.utcoffset()'):
         'datetime is immutable: -= rebinds the local name',
     ('codecs', 'restricted_generalized_time_from_datetime', 'date -= date.utcoffset()'):
@@ -133,40 +137,52 @@ SPEC, INPUT, FRESH, EXC = 'SPEC', 'INPUT', 'FRESH', 'EXC'
 
 
 class P(object):
-    """Provenance: own atoms, atoms reachable from the object, optional tuple items."""
-    __slots__ = ('own', 'elems', 'items')
+    """Provenance of a value: atoms the object itself may be (own), atoms reachable through item /
+    iteration edges only (elems), atoms reachable through a path with an attribute edge (fields),
+    and, for tuple displays, the provenance of each position (items)."""
+    __slots__ = ('own', 'elems', 'fields', 'items')
 
-    def __init__(self, own=(), elems=(), items=None):
+    def __init__(self, own=(), elems=(), fields=(), items=None):
         self.own = frozenset(own)
         self.elems = frozenset(elems)
+        self.fields = frozenset(fields)
         self.items = tuple(items) if items is not None else None
 
     def all(self):
-        s = self.own | self.elems
+        s = self.own | self.elems | self.fields
         if self.items:
             for i in self.items:
                 s = s | i.all()
         return s
 
-    def elem(self):
-        """Provenance of an element / attribute / iteration variable."""
-        if self.items:
-            r = P(self.elems, self.elems)
-            for i in self.items:
-                r = join(r, i)
-            return P(r.all(), r.all())
-        return P(self.elems, self.elems)
-
     def flat(self):
         if self.items is None:
             return self
-        e = self.elems
+        e, f = self.elems, self.fields
         for i in self.items:
-            e = e | i.all()
-        return P(self.own, e)
+            i = i.flat()
+            e = e | i.own | i.elems
+            f = f | i.fields
+        return P(self.own, e, f)
+
+    def elem(self):
+        """an item / iteration variable of the object"""
+        p = self.flat()
+        return P(p.elems, p.elems, p.fields)
+
+    def attr(self):
+        """an attribute of the object"""
+        p = self.flat()
+        return P(p.fields, p.fields, p.fields)
+
+    def deep(self):
+        """everything reachable from the object (not the object itself)"""
+        p = self.flat()
+        return p.elems | p.fields
 
     def key(self):
-        return (self.own, self.elems, tuple(i.key() for i in self.items) if self.items is not None else None)
+        return (self.own, self.elems, self.fields,
+                tuple(i.key() for i in self.items) if self.items is not None else None)
 
     def __eq__(self, o):
         return self.key() == o.key()
@@ -175,28 +191,57 @@ class P(object):
         return not self == o
 
     def __repr__(self):
-        return 'P(%s|%s%s)' % (sorted(map(str, self.own)), sorted(map(str, self.elems)),
-                               '' if self.items is None else '|' + repr(self.items))
+        return 'P(%s|%s|%s%s)' % (sorted(map(str, self.own)), sorted(map(str, self.elems)),
+                                  sorted(map(str, self.fields)), '' if self.items is None else '|' + repr(self.items))
 
 
 EMPTY = P()
-FRESHP = P([('fresh',)])
+FRESH_ATOM = ('fresh',)
+FRESHP = P([FRESH_ATOM], [FRESH_ATOM], [FRESH_ATOM])     # a new object, everything inside it is new too
+
+
+def uniform(atoms):
+    atoms = frozenset(atoms)
+    return P(atoms, atoms, atoms)
 
 
 def join(a, b):
     if a is b:
         return a
     if a.items is not None and b.items is not None and len(a.items) == len(b.items):
-        return P(a.own | b.own, a.elems | b.elems, [join(x, y) for x, y in zip(a.items, b.items)])
+        return P(a.own | b.own, a.elems | b.elems, a.fields | b.fields, [join(x, y) for x, y in zip(a.items, b.items)])
     if a.items is None and b.items is None:
-        return P(a.own | b.own, a.elems | b.elems)
-    # one is the empty provenance (constant None etc.): keep the shape of the other
-    if not a.own and not a.elems and a.items is None:
-        return b
-    if not b.own and not b.elems and b.items is None:
-        return a
+        return P(a.own | b.own, a.elems | b.elems, a.fields | b.fields)
+    # "a tuple display, or nothing / a brand-new opaque object": keep the shape of the tuple (a
+    # mutation of a new object is never a shared write, so positions lose nothing)
+    if a.items is None and a.all() <= {FRESH_ATOM}:
+        return P(a.own | b.own, a.elems | b.elems, a.fields | b.fields, b.items)
+    if b.items is None and b.all() <= {FRESH_ATOM}:
+        return P(a.own | b.own, a.elems | b.elems, a.fields | b.fields, a.items)
     a, b = a.flat(), b.flat()
-    return P(a.own | b.own, a.elems | b.elems)
+    return P(a.own | b.own, a.elems | b.elems, a.fields | b.fields)
+
+
+def container_of(values):
+    """a new list / set / dict holding the given values"""
+    e, f = set(), set()
+    for v in values:
+        v = v.flat()
+        e |= v.own | v.elems
+        f |= v.fields
+    return P([FRESH_ATOM], e, f)
+
+
+def store_item(cur, v):
+    """cur[i] = v / cur.append(v)"""
+    cur, v = cur.flat(), v.flat()
+    return P(cur.own, cur.elems | v.own | v.elems, cur.fields | v.fields)
+
+
+def store_attr(cur, v):
+    """cur.a = v"""
+    cur = cur.flat()
+    return P(cur.own, cur.elems, cur.fields | v.all())
 
 
 class Fn(object):
@@ -229,14 +274,18 @@ class Fn(object):
         return (self.module, self.cls or '', self.name)
 
     def accepts(self, npos, kwnames, star):
-        if star:
+        """can a call with npos positional arguments and these keywords reach this function?
+        star: the call has a *args argument (anything goes).  A **kwargs argument (keyword None) is
+        assumed to supply optional parameters only: the required positional parameters must be
+        covered by the explicit arguments."""
+        if star == 'args':
             return True
         if npos > len(self.pos) and not self.vararg:
             return False
         given = set(self.pos[:npos])
         for k in kwnames:
             if k is None:
-                return True
+                continue
             if k in given:
                 return False
             if k not in self.pos and k not in self.kwonly and not self.kwarg:
@@ -255,6 +304,10 @@ def is_mutable_expr(e):
         return n not in ('object', 'frozenset', 'tuple', 'str', 'bytes', 'int', 'float', 'bool', 'join',
                          'range', 'format', 'namedtuple')
     return False
+
+
+def modjoin(a, b):
+    return (a + '.' + b) if a else b
 
 
 class Module(object):
@@ -329,7 +382,15 @@ class Module(object):
             for b in st.body + [x for h in st.handlers for x in h.body] + st.orelse + st.finalbody:
                 self._index_stmt(b)
         elif isinstance(st, ast.If):
-            for b in st.body + st.orelse:
+            t = ast.unparse(st.test).replace(' ', '')
+            if t in ('sys.version_info[0]>2', 'sys.version_info[0]>=3', 'sys.version_info>=(3,)',
+                     'sys.version_info>=(3,0)'):
+                branches = st.body            # the checks run on Python 3
+            elif t in ('sys.version_info[0]<3', 'sys.version_info[0]==2', 'sys.version_info[0]<=2'):
+                branches = st.orelse
+            else:
+                branches = st.body + st.orelse
+            for b in branches:
                 self._index_stmt(b)
         elif isinstance(st, (ast.Expr, ast.Pass)):
             pass
@@ -345,6 +406,104 @@ class World(object):
             m = Module(repo, rel)
             self.modules[m.name] = m
 
+    def resolve_class(self, mod, e):
+        """(module, class) denoted by a Name / module.Name expression in [mod], or None"""
+        if isinstance(e, ast.Name):
+            if e.id in mod.classes:
+                return (mod.name, e.id)
+            imp = mod.imports.get(e.id)
+            if imp and imp[0] == 'rel' and imp[1] in self.modules and imp[2] in self.modules[imp[1]].classes:
+                return (imp[1], imp[2])
+        elif isinstance(e, ast.Attribute) and isinstance(e.value, ast.Name):
+            imp = mod.imports.get(e.value.id)
+            if imp and imp[0] == 'rel':
+                target = modjoin(imp[1], imp[2])
+                if target in self.modules and e.attr in self.modules[target].classes:
+                    return (target, e.attr)
+        return None
+
+    def hierarchy(self):
+        """subclasses (reflexive, transitive) of every class of the universe"""
+        if hasattr(self, '_subs'):
+            return self._subs
+        direct = {}
+        for m in self.modules.values():
+            for c, node in m.classes.items():
+                direct.setdefault((m.name, c), set())
+                for b in node.bases:
+                    r = self.resolve_class(m, b)
+                    if r:
+                        direct.setdefault(r, set()).add((m.name, c))
+        subs = {}
+        for k in direct:
+            out, todo = set(), [k]
+            while todo:
+                x = todo.pop()
+                if x not in out:
+                    out.add(x)
+                    todo.extend(direct.get(x, ()))
+            subs[k] = out
+        self._subs = subs
+        return subs
+
+    def mro_related(self, key):
+        """classes in which a method called on self inside class [key] can be found: the MRO of
+        any (reflexive) subclass of key"""
+        if not hasattr(self, '_mro'):
+            self._mro = {}
+            self._bases = {}
+            for m in self.modules.values():
+                for c, node in m.classes.items():
+                    self._bases[(m.name, c)] = [r for r in (self.resolve_class(m, b) for b in node.bases) if r]
+        if key in self._mro:
+            return self._mro[key]
+        out = set()
+        for d in self.hierarchy().get(key, {key}):
+            todo = [d]
+            while todo:
+                x = todo.pop()
+                if x not in out:
+                    out.add(x)
+                    todo.extend(self._bases.get(x, ()))
+        self._mro[key] = out
+        return out
+
+    def ctor_sites(self):
+        """every syntactic constructor call K(...) of a universe class: class -> [(module, cls, function)];
+        function '<module>' for module-level code"""
+        if hasattr(self, '_ctors'):
+            return self._ctors
+        sites = {}
+        for m in self.modules.values():
+            def scan(node, where):
+                for n in ast.walk(node):
+                    if isinstance(n, ast.Call):
+                        r = self.resolve_class(m, n.func)
+                        if r:
+                            sites.setdefault(r, []).append((where, n.lineno))
+            for st in m.tree.body:
+                if isinstance(st, ast.FunctionDef):
+                    scan(st, (m.name, '', st.name))
+                elif isinstance(st, ast.ClassDef):
+                    for b in st.body:
+                        if isinstance(b, ast.FunctionDef):
+                            scan(b, (m.name, st.name, b.name))
+                        else:
+                            scan(b, (m.name, st.name, '<class body>'))
+                else:
+                    scan(st, (m.name, '', '<module>'))
+        self._ctors = sites
+        return sites
+
+    def arithmetic_dunders(self):
+        out = []
+        for m in self.modules.values():
+            for (c, n) in m.methods:
+                if n.startswith('__') and n.endswith('__') and n not in (
+                        '__init__', '__repr__', '__str__', '__len__', '__iadd__', '__eq__', '__ne__', '__hash__'):
+                    out.append((m.name, c, n))
+        return out
+
     def family(self, codec):
         """Import closure of codecs.<codec> inside the universe, plus the common modules."""
         seen = set()
@@ -354,15 +513,178 @@ class World(object):
             if n in seen or n not in self.modules:
                 continue
             seen.add(n)
+            if n == 'compiler':
+                continue           # the API module imports every codec; a Specification holds one
             for imp in self.modules[n].imports.values():
                 if imp[0] == 'rel':
                     if imp[1] in self.modules:
                         todo.append(imp[1])
-                    if imp[1] + '.' + imp[2] in self.modules:
-                        todo.append(imp[1] + '.' + imp[2])
+                    if modjoin(imp[1], imp[2]) in self.modules:
+                        todo.append(modjoin(imp[1], imp[2]))
         # the other codec modules reachable only through asn1tools/compiler.py's imports are not
         # part of the family: a Specification compiled for one codec holds objects of that codec only
         return sorted(seen)
+
+
+NUMERIC_CALLS = {'len', 'int', 'ord', 'abs', 'float', 'round', 'bit_length', 'count', 'find', 'index', 'rfind',
+                 'rindex', 'calcsize', 'timegm', 'total_seconds', 'log', 'log2', 'log10', 'ceil', 'floor'}
+NEVER_IN_PLACE = ('LShift', 'RShift', 'Div', 'FloorDiv', 'Mod', 'Pow', 'MatMult')
+
+
+class Numeric(object):
+    """Recognition of expressions whose value is certainly a number, given that no class of the
+    universe overloads arithmetic (checked: otherwise disabled).  Used (a) to show that an
+    augmented assignment on a name rebinds the name instead of mutating a container in place and
+    (b) to drop the provenance of numbers (immutable, so aliasing them is harmless)."""
+
+    def __init__(self, an):
+        self.an = an
+        self.enabled = not an.w.arithmetic_dunders()
+        self.fn_memo = {}
+        self.names_memo = {}
+        self.attr_memo = {}
+
+    def names(self, f):
+        """names of function f all of whose bindings are numeric (greatest fixpoint)"""
+        if f.qual in self.names_memo:
+            return self.names_memo[f.qual]
+        self.names_memo[f.qual] = frozenset()
+        fnode = f.node
+        binds = {}
+        params = set(a.arg for a in ast.walk(fnode.args) if isinstance(a, ast.arg))
+        for n in ast.walk(fnode):
+            if isinstance(n, ast.Assign):
+                for t in n.targets:
+                    if isinstance(t, ast.Name):
+                        binds.setdefault(t.id, []).append(('e', n.value))
+                    else:
+                        for x in ast.walk(t):
+                            if isinstance(x, ast.Name) and isinstance(x.ctx, ast.Store):
+                                binds.setdefault(x.id, []).append(('no', None))
+            elif isinstance(n, ast.AugAssign) and isinstance(n.target, ast.Name):
+                binds.setdefault(n.target.id, []).append(('aug', n))
+            elif isinstance(n, (ast.For, ast.comprehension)):
+                it = n.iter
+                rng = isinstance(it, ast.Call) and isinstance(it.func, ast.Name) and it.func.id == 'range'
+                for x in ast.walk(n.target):
+                    if isinstance(x, ast.Name):
+                        binds.setdefault(x.id, []).append(('yes', None) if rng and isinstance(n.target, ast.Name)
+                                                          else ('no', None))
+            elif isinstance(n, (ast.With, ast.NamedExpr, ast.AnnAssign)):
+                for x in ast.walk(n):
+                    if isinstance(x, ast.Name) and isinstance(x.ctx, ast.Store):
+                        binds.setdefault(x.id, []).append(('no', None))
+            elif isinstance(n, ast.ExceptHandler) and n.name:
+                binds.setdefault(n.name, []).append(('no', None))
+        good = set(k for k in binds if k not in params)
+        while True:
+            bad = set()
+            for k in good:
+                for kind, v in binds[k]:
+                    if kind == 'no' or (kind == 'e' and not self.expr(v, good, f)) or \
+                            (kind == 'aug' and type(v.op).__name__ == 'Mult' and not self.expr(v.value, good, f)):
+                        bad.add(k)
+            if not bad:
+                break
+            good -= bad
+        self.names_memo[f.qual] = frozenset(good)
+        return self.names_memo[f.qual]
+
+    def attr(self, f, attr):
+        """is self.<attr> certainly a number in methods of f's class (every store in the class
+        hierarchy stores a number)?"""
+        if not f.cls:
+            return False
+        comp = self.an.related(self.an.w.modules[f.module], f.cls)
+        key = (min(comp), attr)
+        if key in self.attr_memo:
+            return self.attr_memo[key]
+        self.attr_memo[key] = False
+        stores = 0
+        ok = True
+        for (mname, cname) in comp:
+            mod = self.an.w.modules[mname]
+            for (c, n), g in mod.methods.items():
+                if c != cname or not g.self_name:
+                    continue
+                for node in ast.walk(g.node):
+                    tgts = []
+                    if isinstance(node, ast.Assign):
+                        tgts = [(t, node.value, None) for t in node.targets]
+                    elif isinstance(node, ast.AugAssign):
+                        tgts = [(node.target, node.value, type(node.op).__name__)]
+                    elif isinstance(node, (ast.AnnAssign, ast.For, ast.With, ast.Delete)):
+                        for x in ast.walk(node):
+                            if isinstance(x, ast.Attribute) and isinstance(x.ctx, (ast.Store, ast.Del)) and \
+                                    x.attr == attr and not isinstance(node, (ast.For, ast.With)):
+                                ok = False
+                        if isinstance(node, (ast.For, ast.With)):
+                            tg = node.target if isinstance(node, ast.For) else None
+                            if tg is not None:
+                                for x in ast.walk(tg):
+                                    if isinstance(x, ast.Attribute) and x.attr == attr:
+                                        ok = False
+                    for t, val, op in tgts:
+                        if isinstance(t, ast.Attribute) and t.attr == attr and isinstance(t.value, ast.Name) \
+                                and t.value.id == g.self_name:
+                            stores += 1
+                            if op is None:
+                                ok = ok and self.expr(val, self.names(g), g)
+                            elif op == 'Mult':
+                                ok = ok and self.expr(val, self.names(g), g)
+                        elif not isinstance(t, ast.Attribute):
+                            for x in ast.walk(t):
+                                if isinstance(x, ast.Attribute) and x.attr == attr and isinstance(x.ctx, ast.Store):
+                                    ok = False
+                    if isinstance(node, ast.Call) and isinstance(node.func, ast.Name) and node.func.id in ('setattr', 'delattr'):
+                        ok = False
+        res = bool(ok and stores)
+        self.attr_memo[key] = res
+        return res
+
+    def expr(self, e, names, f, depth=0):
+        if not self.enabled or depth > 8:
+            return False
+        if isinstance(e, ast.Constant):
+            return isinstance(e.value, (int, float)) and not isinstance(e.value, bool)
+        if isinstance(e, ast.Name):
+            return e.id in names
+        if isinstance(e, ast.Attribute):
+            return isinstance(e.value, ast.Name) and f is not None and e.value.id == f.self_name and self.attr(f, e.attr)
+        if isinstance(e, ast.UnaryOp):
+            return isinstance(e.op, (ast.USub, ast.UAdd, ast.Invert))
+        if isinstance(e, ast.BinOp):
+            if isinstance(e.op, (ast.LShift, ast.RShift, ast.Div, ast.FloorDiv, ast.Pow)):
+                return True
+            l, r = self.expr(e.left, names, f, depth + 1), self.expr(e.right, names, f, depth + 1)
+            if isinstance(e.op, ast.Mult):
+                return l and r
+            if isinstance(e.op, ast.Mod):
+                return l
+            return l or r                 # + - & | ^ with one numeric operand: both are numbers
+        if isinstance(e, ast.IfExp):
+            return self.expr(e.body, names, f, depth + 1) and self.expr(e.orelse, names, f, depth + 1)
+        if isinstance(e, ast.Call):
+            fn = e.func
+            name = fn.id if isinstance(fn, ast.Name) else fn.attr if isinstance(fn, ast.Attribute) else None
+            if name is None:
+                return False
+            cands = self.an.by_name.get(name, []) + self.an.funcs_by_name.get(name, [])
+            if not cands:
+                return name in NUMERIC_CALLS
+            return all(self.fn(c, depth + 1) for c in cands)
+        return False
+
+    def fn(self, f, depth=0):
+        if f.qual in self.fn_memo:
+            return self.fn_memo[f.qual]
+        self.fn_memo[f.qual] = False          # cycles: not numeric
+        names = self.names(f)
+        rets = [n for n in ast.walk(f.node) if isinstance(n, ast.Return)]
+        gen = any(isinstance(n, (ast.Yield, ast.YieldFrom)) for n in ast.walk(f.node))
+        ok = bool(rets) and not gen and all(r.value is not None and self.expr(r.value, names, f, depth) for r in rets)
+        self.fn_memo[f.qual] = ok
+        return ok
 
 
 class Event(object):
@@ -373,62 +695,151 @@ class Event(object):
 
 
 class Analysis(object):
-    """One family."""
+    """One codec family."""
 
-    def __init__(self, world, codec):
+    def __init__(self, world, codec, call_local=frozenset()):
         self.w = world
         self.codec = codec
+        self.call_local = call_local      # (module, class) whose instances only exist during one call
+        self.class_attr = {}              # call-local class -> attr -> (own roots, reachable roots)
         self.mods = [world.modules[n] for n in world.family(codec)]
         self.modnames = set(m.name for m in self.mods)
-        self.by_name = {}          # function name -> [Fn]  (methods)
+        self.by_name = {}          # method name -> [Fn]
         self.funcs_by_name = {}    # module-level functions by name
         self.props = {}            # property name -> [Fn]
-        self.class_of = {}         # class name -> [(module, ClassDef)]
         for m in self.mods:
             for (c, n), f in m.methods.items():
+                if m.name == 'compiler':
+                    # asn1tools/compiler.py holds the outermost API object (Specification): it is built
+                    # after, and on top of, the codec objects and no reference to it is handed down,
+                    # so calls made by codec code never dispatch to its methods (its constructor sites
+                    # are checked to be in that module only)
+                    continue
                 (self.props if f.is_property else self.by_name).setdefault(n, []).append(f)
             for n, f in m.functions.items():
                 self.funcs_by_name.setdefault(n, []).append(f)
-            for c, node in m.classes.items():
-                self.class_of.setdefault(c, []).append((m, node))
         self.inflow = {}           # Fn.qual -> {param: P of root atoms}
         self.returns = {}          # Fn.qual -> P over local atoms
         self.reach = {}            # Fn.qual -> Fn
         self.events = {}           # Fn.qual -> {(line, kind, detail): Event}
         self.global_reads = set()  # (qual, global module, name, line)
-        self.ctor_sites = set()    # (class module, class, in qual, line)
         self.unknown_ext = set()
+        self.why = {}
         self.changed = True
+        self._adj = None
+        self._rel = {}
+        self.numeric = Numeric(self)
+
+    # ---- class structure -------------------------------------------------------
+    def related(self, m, c):
+        """connected component of (m, c) in the inheritance graph of the family"""
+        if self._adj is None:
+            adj = {}
+            for mm in self.mods:
+                for cc, nn in mm.classes.items():
+                    k = (mm.name, cc)
+                    adj.setdefault(k, set())
+                    for b in nn.bases:
+                        r = self.w.resolve_class(mm, b)
+                        if r:
+                            adj[k].add(r)
+                            adj.setdefault(r, set()).add(k)
+            self._adj = adj
+        k0 = (m.name, c)
+        if k0 in self._rel:
+            return self._rel[k0]
+        out, todo = set(), [k0]
+        while todo:
+            k = todo.pop()
+            if k not in out:
+                out.add(k)
+                todo.extend(self._adj.get(k, ()))
+        out = frozenset(out)
+        for k in out:
+            self._rel[k] = out
+        return out
+
+    # ---- what self / self.attr may be ------------------------------------------------
+    def self_flow(self, f):
+        """decided by the class of self (its allocation sites), not by the callers"""
+        if (f.module, f.cls) in self.call_local:
+            deep = self.attr_flow(f, '*', True)
+            return P([FRESH], deep, deep)
+        return uniform([SPEC])
+
+    def attr_flow(self, f, attr, deep):
+        """root atoms of self.<attr> (deep: of what is reachable from it) in a method of f's class"""
+        key = (f.module, f.cls)
+        if key not in self.call_local:
+            return {SPEC}
+        out = set()
+        found = False
+        for k in self.related(self.w.modules[f.module], f.cls):
+            for a, (own, el) in self.class_attr.get(k, {}).items():
+                if attr == '*' or a == attr:
+                    found = True
+                    out |= el if deep else own
+                    if attr == '*':
+                        out |= own
+        if attr == '*':
+            out.add(FRESH)
+        elif not found:
+            # never stored by a method: a class attribute (shared by all instances), a method, or unknown
+            for k in self.w.mro_related(key):
+                ca = self.w.modules[k[0]].class_attrs.get(k[1], {}).get(attr)
+                if ca is not None:
+                    return {('global', k[0], k[1] + '.' + attr)} if ca[0] else set()
+            for k in self.w.mro_related(key):
+                if (k[1], attr) in self.w.modules[k[0]].methods:
+                    return set()
+            return {('unknown', 'attribute %s.%s is never assigned' % (f.cls, attr))}
+        return out
+
+    def attr_store(self, f, attr, own, el):
+        key = (f.module, f.cls)
+        if key not in self.call_local:
+            return
+        d = self.class_attr.setdefault(key, {})
+        cur = d.get(attr, (frozenset(), frozenset()))
+        new = (cur[0] | frozenset(own), cur[1] | frozenset(el))
+        if new != cur or attr not in d:
+            d[attr] = new
+            self.changed = True
 
     # ---- roots ---------------------------------------------------------------
     def seed(self):
-        spec = P([SPEC], [SPEC])
-        inp = P([INPUT], [INPUT])
+        inp = uniform([INPUT])
         for mod, cls, name in ROOT_METHODS:
             f = self.w.modules[mod].methods.get((cls, name))
             if f is None:
                 raise SystemExit('writesets: root %s.%s.%s not found' % (mod, cls, name))
-            flow = {'self': spec}
+            flow = {'self': self.self_flow(f)}
             for p in f.pos:
-                flow[p] = inp if p in ('data',) else (EMPTY if p in ('name', 'check_types', 'check_constraints') else inp)
+                flow[p] = EMPTY if p in ('name', 'check_types', 'check_constraints') else inp
             if f.kwarg:
-                flow[f.kwarg] = inp
+                flow[f.kwarg] = P([FRESH], [INPUT], [INPUT])
             self.add_inflow(f, flow)
         for m in self.mods:
             for (cls, name), f in m.methods.items():
                 if cls.startswith('Compiled') and name in COMPILED_TYPE_ROOTS:
-                    flow = {'self': spec}
-                    for p in f.pos + f.kwonly + [x for x in (f.kwarg, f.vararg) if x]:
+                    flow = {'self': self.self_flow(f)}
+                    for p in f.pos + f.kwonly:
                         flow[p] = inp
+                    for p in (f.kwarg, f.vararg):
+                        if p:
+                            flow[p] = P([FRESH], [INPUT], [INPUT])
                     self.add_inflow(f, flow)
 
-    def add_inflow(self, f, flow):
+    def add_inflow(self, f, flow, src=None):
         cur = self.inflow.setdefault(f.qual, {})
         if f.qual not in self.reach:
             self.reach[f.qual] = f
             self.changed = True
         for p, v in flow.items():
             v = v.flat()
+            if src is not None:
+                for a in v.all():
+                    self.why.setdefault((f.qual, p, a), src)
             old = cur.get(p)
             new = v if old is None else join(old, v)
             if old is None or new != old:
@@ -442,83 +853,35 @@ class Analysis(object):
         while self.changed:
             self.changed = False
             rounds += 1
-            if rounds > 60:
+            if rounds > 80:
                 raise SystemExit('writesets: no fixpoint')
             for q in sorted(self.reach):
                 FnRun(self, self.reach[q]).run()
-            # implicit dunder methods and properties of classes that have a reachable method
             self.implicit()
         return self
 
     def implicit(self):
-        cls_flow = {}
+        """dunder methods run implicitly (str(e), len(x), x += y, ==): reachable as soon as any
+        method of a related class is; their non-self parameters may be anything"""
+        live = set()
         for q, f in list(self.reach.items()):
-            if f.cls and not (f.name.startswith('__') and f.name != '__init__' and f.name != '__iadd__'):
-                s = self.inflow[q].get('self')
-                if s is not None:
-                    key = (f.module, f.cls)
-                    cls_flow[key] = join(cls_flow.get(key, EMPTY), s)
-        # propagate along inheritance (both directions: a method of a base runs on instances of the subclass)
+            if f.cls:
+                live |= self.related(self.w.modules[f.module], f.cls)
+        anyp = uniform([SPEC, INPUT, FRESH])
         for m in self.mods:
-            for c, node in m.classes.items():
-                fam = self.related(m, c)
-                tot = EMPTY
-                for k in fam:
-                    tot = join(tot, cls_flow.get(k, EMPTY))
-                if not tot.own and not tot.elems:
-                    continue
-                for (cc, name), f in m.methods.items():
-                    if cc == c and name.startswith('__') and name.endswith('__') and name not in ('__init__',):
-                        flow = {'self': tot}
+            for (c, name), f in m.methods.items():
+                if (m.name, c) in live and name.startswith('__') and name.endswith('__') and name != '__init__':
+                    flow = {'self': self.self_flow(f)}
+                    if name != '__iadd__':
                         for p in f.pos:
-                            flow[p] = join(self.inflow.get(f.qual, {}).get(p, EMPTY), P([SPEC, INPUT], [SPEC, INPUT])) \
-                                if name != '__iadd__' else self.inflow.get(f.qual, {}).get(p, EMPTY)
-                        self.add_inflow(f, flow)
-
-    def related(self, m, c, seen=None):
-        """(module, class) keys of c, its bases and its subclasses inside the family."""
-        out = set()
-        todo = [(m.name, c)]
-        while todo:
-            k = todo.pop()
-            if k in out:
-                continue
-            out.add(k)
-            mod = self.w.modules[k[0]]
-            node = mod.classes.get(k[1])
-            if node is None:
-                continue
-            for b in node.bases:
-                r = self.resolve_class_expr(mod, b)
-                if r:
-                    todo.append(r)
-            for mm in self.mods:
-                for cc, nn in mm.classes.items():
-                    for b in nn.bases:
-                        if self.resolve_class_expr(mm, b) == k:
-                            todo.append((mm.name, cc))
-        return out
-
-    def resolve_class_expr(self, mod, e):
-        if isinstance(e, ast.Name):
-            if e.id in mod.classes:
-                return (mod.name, e.id)
-            imp = mod.imports.get(e.id)
-            if imp and imp[0] == 'rel' and imp[1] in self.w.modules and imp[2] in self.w.modules[imp[1]].classes:
-                return (imp[1], imp[2])
-        elif isinstance(e, ast.Attribute) and isinstance(e.value, ast.Name):
-            imp = mod.imports.get(e.value.id)
-            if imp and imp[0] == 'rel':
-                target = imp[1] + '.' + imp[2] if imp[1] + '.' + imp[2] in self.w.modules else None
-                if target and e.attr in self.w.modules[target].classes:
-                    return (target, e.attr)
-        return None
+                            flow[p] = anyp
+                    self.add_inflow(f, flow)
 
     def event(self, fn, line, kind, detail, atoms, text):
         d = self.events.setdefault(fn.qual, {})
         k = (line, kind, detail)
         if k in d:
-            if not atoms <= d[k].atoms:
+            if not frozenset(atoms) <= d[k].atoms:
                 d[k].atoms = d[k].atoms | frozenset(atoms)
         else:
             d[k] = Event(fn, line, kind, detail, atoms, text)
@@ -533,6 +896,7 @@ class FnRun(object):
         self.mod = an.w.modules[fn.module]
         self.ret = None
         self.local_names = set()
+        self.declared_global = set()
         for n in ast.walk(fn.node):
             if isinstance(n, ast.Name) and isinstance(n.ctx, (ast.Store, ast.Del)):
                 self.local_names.add(n.id)
@@ -540,59 +904,62 @@ class FnRun(object):
                 self.local_names.add(n.name)
             elif isinstance(n, ast.arg):
                 self.local_names.add(n.arg)
-        self.declared_global = set()
-        for n in ast.walk(fn.node):
-            if isinstance(n, (ast.Global, ast.Nonlocal)):
+            elif isinstance(n, (ast.Global, ast.Nonlocal)):
                 self.declared_global.update(n.names)
+        self.nn = an.numeric.names(fn)
+        self.num_memo = {}
 
-    # ---- concretisation ------------------------------------------------------
+    def is_num(self, e):
+        k = id(e)
+        if k not in self.num_memo:
+            self.num_memo[k] = self.an.numeric.expr(e, self.nn, self.fn)
+        return self.num_memo[k]
+
+    # ---- concretisation: local atoms -> root atoms ---------------------------------
     def conc(self, atoms):
-        """local atoms -> root atoms via this function's inflow"""
         flow = self.an.inflow.get(self.fn.qual, {})
         out = set()
         for a in atoms:
-            if a[0] == 'fresh':
+            t = a[0]
+            if t == 'fresh':
                 out.add(FRESH)
-            elif a[0] == 'exc':
+            elif t == 'exc':
                 out.add(EXC)
-            elif a[0] == 'self':
-                out |= flow.get('self', EMPTY).own
-            elif a[0] == 'selfattr':
-                out |= flow.get('self', EMPTY).elems
-            elif a[0] == 'param':
+            elif t == 'self':
+                out |= self.an.self_flow(self.fn).own
+            elif t == 'selfattr':
+                out |= self.an.attr_flow(self.fn, a[1], False)
+            elif t == 'selfattr*':
+                out |= self.an.attr_flow(self.fn, a[1], True)
+            elif t == 'param':
                 p = flow.get(a[1], EMPTY)
-                out |= (p.own if a[2] == 'own' else p.elems)
-            elif a[0] in ('global', 'unknown'):
-                out.add(a)
+                out |= getattr(p, a[2])
             else:
                 out.add(a)
         return out
 
     def concP(self, p):
         p = p.flat()
-        return P(self.conc(p.own), self.conc(p.elems))
+        return P(self.conc(p.own), self.conc(p.elems), self.conc(p.fields))
 
     # ---- run -------------------------------------------------------------------
     def run(self):
         fn = self.fn
         env = {}
+        if fn.is_method:
+            self.an.add_inflow(fn, {'self': self.an.self_flow(fn)})
         if fn.other_decorators:
             self.ev(fn.node.lineno, 'Unclassified', 'decorator ' + fn.other_decorators[0], [('unknown', 'decorator')],
                     fn.other_decorators[0])
         if fn.self_name:
-            env[fn.self_name] = P([('self',)], [('selfattr', '*')])
+            env[fn.self_name] = P([('self',)], [('selfattr*', '*')], [('selfattr*', '*')])
         for p in fn.pos + fn.kwonly + [x for x in (fn.vararg, fn.kwarg) if x]:
-            own = [('param', p, 'own')]
-            el = [('param', p, 'elems')]
+            v = P([('param', p, 'own')], [('param', p, 'elems')], [('param', p, 'fields')])
             if p in fn.mutable_defaults:
                 g = ('global', fn.module, '%s.%s:default(%s)' % (fn.cls or '', fn.name, p))
-                own.append(g)
-                el.append(g)
-            if p in (fn.vararg, fn.kwarg):
-                env[p] = P([('fresh',)], own + el)
-            else:
-                env[p] = P(own, el)
-        env = self.block(fn.node.body, env)
+                v = join(v, uniform([g]))
+            env[p] = v
+        self.block(fn.node.body, env)
         ret = self.ret if self.ret is not None else EMPTY
         old = self.an.returns.get(fn.qual)
         new = ret if old is None else join(old, ret)
@@ -604,22 +971,27 @@ class FnRun(object):
         text = node_or_text if isinstance(node_or_text, str) else ast.unparse(node_or_text)
         self.an.event(self.fn, line, kind, detail, frozenset(atoms), text.split('\n')[0][:100])
 
+    def add_ret(self, v):
+        self.ret = v if self.ret is None else join(self.ret, v)
+
     # ---- statements ------------------------------------------------------------
     def block(self, stmts, env):
         for s in stmts:
             env = self.stmt(s, env)
         return env
 
-    def joinenv(self, a, b):
+    @staticmethod
+    def joinenv(a, b):
         out = {}
         for k in set(a) | set(b):
             if k in a and k in b:
                 out[k] = join(a[k], b[k])
             else:
-                out[k] = a.get(k) or b.get(k)
+                out[k] = a[k] if k in a else b[k]
         return out
 
-    def enveq(self, a, b):
+    @staticmethod
+    def enveq(a, b):
         return set(a) == set(b) and all(a[k] == b[k] for k in a)
 
     def stmt(self, s, env):
@@ -648,8 +1020,7 @@ class FnRun(object):
                     self.ev(s.lineno, 'Unclassified', 'del target', [('unknown', 'del')], s)
         elif isinstance(s, ast.Return):
             if s.value is not None:
-                v = self.expr(s.value, env)
-                self.ret = v if self.ret is None else join(self.ret, v)
+                self.add_ret(self.expr(s.value, env))
         elif isinstance(s, ast.If):
             self.expr(s.test, env)
             e1 = self.block(s.body, dict(env))
@@ -671,8 +1042,7 @@ class FnRun(object):
                 cur = nxt
             else:
                 self.ev(s.lineno, 'Unclassified', 'loop did not stabilise', [('unknown', 'loop')], 'loop')
-            env = self.block(s.orelse, dict(cur)) if s.orelse else cur
-            env = self.joinenv(env, cur)
+            env = self.joinenv(self.block(s.orelse, dict(cur)), cur) if s.orelse else cur
         elif isinstance(s, ast.Try):
             body = self.block(s.body, dict(env))
             mid = self.joinenv(env, body)
@@ -682,7 +1052,7 @@ class FnRun(object):
                 if h.type is not None:
                     self.expr(h.type, he)
                 if h.name:
-                    he[h.name] = P([('exc',)], [('exc',)])
+                    he[h.name] = P([('exc',)], [('exc',)], [('exc',)])
                 outs.append(self.block(h.body, he))
             env = outs[0]
             for o in outs[1:]:
@@ -734,56 +1104,82 @@ class FnRun(object):
             return env
         if isinstance(t, ast.Attribute):
             self.write(t.value, env, 'AttrStore', t.attr, s, attr=t.attr)
-            return self.taint(t.value, v, env)
+            return self.stored(t.value, v, env, attr=t.attr)
         if isinstance(t, ast.Subscript):
             self.expr(t.slice, env)
             self.write(t.value, env, 'ItemStore', '', s)
-            return self.taint(t.value, v, env)
+            return self.stored(t.value, v, env)
         if isinstance(t, ast.Starred):
             return self.assign(t.value, v, env, s)
         self.ev(s.lineno, 'Unclassified', 'assignment target', [('unknown', 'target')], s)
         return env
 
-    def taint(self, recv, v, env):
-        """storing v into the object denoted by recv makes v reachable from it"""
-        if isinstance(recv, ast.Name) and recv.id in env:
-            cur = env[recv.id].flat()
+    def stored(self, recv, v, env, attr=None):
+        """v was stored into the object denoted by recv (attribute [attr], or an item): it becomes
+        reachable from that object"""
+        root = recv
+        path = []
+        while isinstance(root, (ast.Attribute, ast.Subscript)):
+            path.append(root)
+            root = root.value
+        if isinstance(root, ast.Name) and root.id == self.fn.self_name and self.fn.cls:
+            if recv is root and attr is not None:
+                vf = v.flat()                                # self.a = v
+                self.an.attr_store(self.fn, attr, self.conc(vf.own), self.conc(vf.elems | vf.fields))
+            elif path and isinstance(path[-1], ast.Attribute):
+                self.an.attr_store(self.fn, path[-1].attr, (), self.conc(v.all()))   # self.a[i] = v, self.a.b = v
+        elif isinstance(recv, ast.Name) and recv.id in env:
+            cur = env[recv.id]
+            for a in cur.all():
+                if a[0] in ('selfattr', 'selfattr*') and self.fn.cls and a[1] != '*':
+                    self.an.attr_store(self.fn, a[1], (), self.conc(v.all()))
             env = dict(env)
-            env[recv.id] = P(cur.own, cur.elems | v.all())
+            env[recv.id] = store_attr(cur, v) if attr is not None else store_item(cur, v)
         return env
 
     def augassign(self, s, env):
         t = s.target
         v = self.expr(s.value, env)
+        opname = type(s.op).__name__
         if isinstance(t, ast.Name):
             cur = self.expr(ast.Name(id=t.id, ctx=ast.Load(), lineno=s.lineno, col_offset=0), env)
             if t.id in self.declared_global:
                 self.ev(s.lineno, 'GlobalStore', t.id, [('global', self.fn.module, t.id)], s)
             key = (self.fn.module, self.fn.name, ast.unparse(s))
-            if cur.own and key not in BENIGN_AUG:
-                dunder = AUG_DUNDER[type(s.op).__name__]
-                cands = [f for f in self.an.by_name.get(dunder, [])]
-                # a name holding a user object with __iXXX__: call it; otherwise possible in-place
-                # operator of a builtin container
+            cands = self.an.by_name.get(AUG_DUNDER[opname], [])
+            # No builtin container implements the shift / division / power operators in place, and
+            # "x op= <number>" raises TypeError for every builtin container unless op is * (list *= 2):
+            # such statements only rebind the local name.
+            numeric_rhs = self.is_num(s.value)
+            rebinding_only = opname in NEVER_IN_PLACE or (numeric_rhs and opname != 'Mult')
+            # a name holding an object of a family class with __iXXX__: that method runs (its writes
+            # to self are classified there, by the class of self)
+            if cur.own and not numeric_rhs:
                 for f in cands:
-                    self.call_fn(f, cur, [v], {}, env, s)
-                self.ev(s.lineno, 'AugName', type(s.op).__name__, cur.own, s)
+                    self.call_fn(f, cur, [v], {}, s)
+            if cur.own and key not in BENIGN_AUG and not rebinding_only:
+                self.ev(s.lineno, 'AugName', opname, cur.own, s)
             env = dict(env)
-            env[t.id] = join(cur, P((), v.all())) if cur.own else EMPTY
+            if (rebinding_only and not cands) or not cur.own:
+                env[t.id] = EMPTY
+            else:
+                env[t.id] = store_item(cur, v)
             return env
         if isinstance(t, ast.Attribute):
             self.write(t.value, env, 'AugAttr', t.attr, s, attr=t.attr)
-            return self.taint(t.value, v, env)
+            return self.stored(t.value, EMPTY if (self.is_num(s.value) and opname != 'Mult') or opname in NEVER_IN_PLACE
+                               else v, env, attr=t.attr)
         if isinstance(t, ast.Subscript):
             self.expr(t.slice, env)
             self.write(t.value, env, 'AugItem', '', s)
-            return self.taint(t.value, v, env)
+            return self.stored(t.value, v, env)
         self.ev(s.lineno, 'Unclassified', 'augmented target', [('unknown', 'target')], s)
         return env
 
     def write(self, recv_expr, env, kind, detail, node, attr=None):
         """a store through recv_expr (the object whose attribute / item is written)"""
-        if isinstance(recv_expr, ast.Name) and recv_expr.id == self.fn.self_name and attr is not None:
+        if isinstance(recv_expr, ast.Name) and recv_expr.id == self.fn.self_name and attr is not None \
+                and env.get(recv_expr.id, EMPTY).own == frozenset([('self',)]):
             atoms = [('selfstore', attr)]
         else:
             p = self.expr(recv_expr, env)
@@ -792,20 +1188,18 @@ class FnRun(object):
             if r is not None:
                 atoms.append(('global', r[0], r[1] + ('.' + attr if attr else '')))
             if not atoms:
-                # a store into an object of no known provenance (constant / immutable): cannot happen
-                # for a constant; fail closed
-                atoms = [('unknown', 'store into object of unknown provenance: ' + ast.unparse(recv_expr))]
+                atoms = [('unknown', 'store into an object of unknown provenance: ' + ast.unparse(recv_expr)[:40])]
         self.ev(node.lineno, kind, detail, atoms, node)
 
     def resolve_static(self, e):
-        """a Name / module.attr denoting a class or module of the universe (writing its attribute is
-        a write to global state)"""
+        """a Name / dotted name denoting a class, function or module (writing its attribute is a
+        write to global state)"""
         if isinstance(e, ast.Name) and e.id not in self.local_names:
             if e.id in self.mod.classes:
                 return (self.mod.name, e.id)
             imp = self.mod.imports.get(e.id)
             if imp:
-                return (imp[1] if imp[0] == 'rel' else 'ext:' + imp[1], imp[2] if imp[0] == 'rel' else e.id)
+                return (imp[1], imp[2]) if imp[0] == 'rel' else ('ext:' + imp[1], e.id)
             if e.id in self.mod.globals or e.id in self.mod.functions:
                 return (self.mod.name, e.id)
         if isinstance(e, ast.Attribute):
@@ -824,8 +1218,11 @@ class FnRun(object):
         if m is None:
             self.ev(getattr(e, 'lineno', 0), 'Unclassified', 'expression ' + type(e).__name__,
                     [('unknown', 'expr')], type(e).__name__)
-            return P([('unknown', 'expr')], [('unknown', 'expr')])
-        return m(e, env)
+            return uniform([('unknown', 'expr')])
+        r = m(e, env)
+        if isinstance(e, (ast.Name, ast.Attribute, ast.BinOp, ast.UnaryOp, ast.Call, ast.IfExp)) and self.is_num(e):
+            return EMPTY                   # a number: immutable, aliasing is harmless
+        return r
 
     def e_Constant(self, e, env):
         return EMPTY
@@ -853,104 +1250,87 @@ class FnRun(object):
         if g is not None:
             if g[0] == 'mutable':
                 self.an.global_reads.add((self.fn.qual, mod.name, name, line))
-                a = ('global', mod.name, name)
-                return P([a], [a])
+                return uniform([('global', mod.name, name)])
             return EMPTY
         if name in mod.classes or name in mod.functions:
             return EMPTY
         imp = mod.imports.get(name)
-        if imp and imp[0] == 'rel' and depth < 5:
-            if imp[1] in self.an.w.modules:
-                tm = self.an.w.modules[imp[1]]
-                if imp[2] in tm.globals or imp[2] in tm.classes or imp[2] in tm.functions or imp[2] in tm.imports:
-                    return self.global_name(tm, imp[2], line, depth + 1)
-            return EMPTY           # a module of the package, or a constant of a module outside the universe (parser)
-        return EMPTY               # builtins, external modules
+        if imp and imp[0] == 'rel' and depth < 5 and imp[1] in self.an.w.modules:
+            tm = self.an.w.modules[imp[1]]
+            if imp[2] in tm.globals or imp[2] in tm.classes or imp[2] in tm.functions or imp[2] in tm.imports:
+                return self.global_name(tm, imp[2], line, depth + 1)
+        return EMPTY               # builtins, external modules, constants of modules outside the universe
+
+    def class_attr_read(self, modname, cname, attr, line):
+        ca = self.an.w.modules[modname].class_attrs[cname].get(attr)
+        if ca and ca[0]:
+            self.an.global_reads.add((self.fn.qual, modname, cname + '.' + attr, line))
+            return uniform([('global', modname, cname + '.' + attr)])
+        return EMPTY
 
     def e_Attribute(self, e, env):
         if e.attr in FORBIDDEN_ATTRS:
             self.ev(e.lineno, 'Unclassified', 'use of ' + e.attr, [('unknown', e.attr)], e)
-        if isinstance(e.value, ast.Name) and e.value.id == self.fn.self_name and e.value.id in env \
-                and env[e.value.id].own == frozenset([('self',)]):
-            base = P([('selfattr', e.attr)], [('selfattr', e.attr)])
-            recv = env[e.value.id]
+        v = e.value
+        if isinstance(v, ast.Name) and v.id == self.fn.self_name and env.get(v.id, EMPTY).own == frozenset([('self',)]):
+            base = P([('selfattr', e.attr)], [('selfattr*', e.attr)], [('selfattr*', e.attr)])
+            recv = env[v.id]
+            via_self = True
         else:
-            # module.attr of a universe module: a global of that module
-            if isinstance(e.value, ast.Name) and e.value.id not in self.local_names:
-                imp = self.mod.imports.get(e.value.id)
+            via_self = False
+            if isinstance(v, ast.Name) and v.id not in self.local_names and v.id not in env:
+                imp = self.mod.imports.get(v.id)
                 if imp and imp[0] == 'rel':
-                    target = imp[1] + '.' + imp[2]
+                    target = modjoin(imp[1], imp[2])
                     if target in self.an.w.modules:
                         return self.global_name(self.an.w.modules[target], e.attr, e.lineno)
                     if imp[1] in self.an.w.modules and imp[2] in self.an.w.modules[imp[1]].classes:
-                        ca = self.an.w.modules[imp[1]].class_attrs[imp[2]].get(e.attr)
-                        if ca and ca[0]:
-                            a = ('global', imp[1], imp[2] + '.' + e.attr)
-                            return P([a], [a])
-                        return EMPTY
+                        return self.class_attr_read(imp[1], imp[2], e.attr, e.lineno)
+                    return EMPTY
                 if imp and imp[0] == 'ext':
                     return EMPTY
-                if e.value.id in self.mod.classes:
-                    ca = self.mod.class_attrs[e.value.id].get(e.attr)
-                    if ca and ca[0]:
-                        a = ('global', self.mod.name, e.value.id + '.' + e.attr)
-                        self.an.global_reads.add((self.fn.qual, self.mod.name, e.value.id + '.' + e.attr, e.lineno))
-                        return P([a], [a])
-                    return EMPTY
-            recv = self.expr(e.value, env)
-            base = recv.elem()
-        # property getters of the universe run code
-        for f in self.an.props.get(e.attr, []):
-            r = self.call_fn(f, recv, [], {}, env, e)
-            base = join(base, r)
+                if v.id in self.mod.classes:
+                    return self.class_attr_read(self.mod.name, v.id, e.attr, e.lineno)
+            recv = self.expr(v, env)
+            base = recv.attr()
+        for f in self.an.props.get(e.attr, []):      # property getters of the family run code
+            base = join(base, self.call_fn(f, recv, [], {}, e, via_self=via_self))
         return base
 
     def e_Subscript(self, e, env):
         v = self.expr(e.value, env)
         if isinstance(e.slice, ast.Slice):
-            for x in (e.slice.lower, e.slice.upper, e.slice.step):
-                if x is not None:
-                    self.expr(x, env)
+            self.expr(e.slice, env)
             vf = v.flat()
-            return P([('fresh',)], vf.elems)          # a slice is a new container with the same elements
+            return P([FRESH_ATOM], vf.elems, vf.fields)      # a slice is a new container with the same elements
         self.expr(e.slice, env)
         if v.items is not None and isinstance(e.slice, ast.Constant) and isinstance(e.slice.value, int) \
-                and -len(v.items) <= e.slice.value < len(v.items):
+                and not isinstance(e.slice.value, bool) and -len(v.items) <= e.slice.value < len(v.items):
             return v.items[e.slice.value]
         return v.elem()
+
+    def e_Slice(self, e, env):
+        for x in (e.lower, e.upper, e.step):
+            if x is not None:
+                self.expr(x, env)
+        return EMPTY
 
     def e_Starred(self, e, env):
         return self.expr(e.value, env)
 
-    def _seq(self, elts, env):
-        items = [self.expr(x, env) for x in elts]
-        return items
-
     def e_Tuple(self, e, env):
+        items = [self.expr(x, env) for x in e.elts]
         if any(isinstance(x, ast.Starred) for x in e.elts):
-            items = self._seq(e.elts, env)
-            al = set()
-            for i in items:
-                al |= i.all()
-            return P([('fresh',)], al)
-        return P([('fresh',)], (), self._seq(e.elts, env))
+            return container_of(items)
+        return P([FRESH_ATOM], (), (), items)
 
     def e_List(self, e, env):
-        al = set()
-        for i in self._seq(e.elts, env):
-            al |= i.all()
-        return P([('fresh',)], al)
+        return container_of([self.expr(x, env) for x in e.elts])
 
     e_Set = e_List
 
     def e_Dict(self, e, env):
-        al = set()
-        for k in e.keys:
-            if k is not None:
-                al |= self.expr(k, env).all()
-        for v in e.values:
-            al |= self.expr(v, env).all()
-        return P([('fresh',)], al)
+        return container_of([self.expr(k, env) for k in e.keys if k is not None] + [self.expr(v, env) for v in e.values])
 
     def _comp(self, e, env, elts):
         env = dict(env)
@@ -959,10 +1339,7 @@ class FnRun(object):
             env = self.assign(g.target, it.elem(), env, e)
             for c in g.ifs:
                 self.expr(c, env)
-        al = set()
-        for x in elts:
-            al |= self.expr(x, env).all()
-        return P([('fresh',)], al)
+        return container_of([self.expr(x, env) for x in elts])
 
     def e_ListComp(self, e, env):
         return self._comp(e, env, [e.elt])
@@ -974,11 +1351,10 @@ class FnRun(object):
         return self._comp(e, env, [e.key, e.value])
 
     def e_BinOp(self, e, env):
-        self.expr(e.left, env)
-        self.expr(e.right, env)
-        # a new object; for list + list the elements are shared
-        l, r = self.expr(e.left, env), self.expr(e.right, env)
-        return P([('fresh',)] if (l.all() or r.all()) else (), l.flat().elems | r.flat().elems)
+        l, r = self.expr(e.left, env).flat(), self.expr(e.right, env).flat()
+        if not l.all() and not r.all():
+            return EMPTY
+        return P([FRESH_ATOM], l.elems | r.elems, l.fields | r.fields)     # list + list shares the elements
 
     def e_UnaryOp(self, e, env):
         self.expr(e.operand, env)
@@ -1002,155 +1378,143 @@ class FnRun(object):
 
     def e_Lambda(self, e, env):
         self.ev(e.lineno, 'Unclassified', 'lambda', [('unknown', 'lambda')], e)
-        return P([('unknown', 'lambda')], [('unknown', 'lambda')])
+        return uniform([('unknown', 'lambda')])
 
     def e_NamedExpr(self, e, env):
-        self.ev(e.lineno, 'Unclassified', 'walrus', [('unknown', 'walrus')], e)
+        self.ev(e.lineno, 'Unclassified', 'assignment expression', [('unknown', 'walrus')], e)
         return self.expr(e.value, env)
 
     def e_Yield(self, e, env):
-        self.ev(e.lineno, 'Unclassified', 'generator', [('unknown', 'yield')], e)
+        # a generator function: the call returns a new (call-local) generator whose iteration
+        # produces the yielded values
+        v = self.expr(e.value, env) if e.value is not None else EMPTY
+        self.add_ret(container_of([v]))
         return EMPTY
 
-    e_YieldFrom = e_Yield
-    e_Await = e_Yield
+    def e_YieldFrom(self, e, env):
+        self.add_ret(container_of([self.expr(e.value, env).elem()]))
+        return EMPTY
 
-    def e_Slice(self, e, env):
-        for x in (e.lower, e.upper, e.step):
-            if x is not None:
-                self.expr(x, env)
+    def e_Await(self, e, env):
+        self.ev(e.lineno, 'Unclassified', 'await', [('unknown', 'await')], e)
         return EMPTY
 
     # ---- calls ---------------------------------------------------------------------
     def e_Call(self, e, env):
         f = e.func
         args = [self.expr(a, env) for a in e.args]
-        star = any(isinstance(a, ast.Starred) for a in e.args) or any(k.arg is None for k in e.keywords)
+        star = 'args' if any(isinstance(a, ast.Starred) for a in e.args) else \
+            ('kwargs' if any(k.arg is None for k in e.keywords) else False)
         kw = {}
-        kwstar = []
+        extra = []
         for k in e.keywords:
             v = self.expr(k.value, env)
             if k.arg is None:
-                kwstar.append(v)
+                extra.append(v)
             else:
                 kw[k.arg] = v
-        allargs = args + list(kw.values()) + kwstar
+        allargs = args + list(kw.values()) + extra
 
-        def args_atoms():
-            s = set()
-            for a in allargs:
-                s |= a.all()
-            return s
-
-        # --- super().m(...) / super(X, self).m(...)
+        # super().m(...) / super(X, self).m(...)
         if isinstance(f, ast.Attribute) and isinstance(f.value, ast.Call) and isinstance(f.value.func, ast.Name) \
                 and f.value.func.id == 'super':
             recv = env.get(self.fn.self_name, EMPTY)
-            return self.method_call(f.attr, recv, args, kw, star, env, e, via_self=True, external_ok=False)
+            return self.method_call(f.attr, recv, args, kw, star, extra, env, e, via_self=True, external_ok=False)
         if isinstance(f, ast.Attribute):
             name = f.attr
-            # module-qualified call
             if isinstance(f.value, ast.Name) and f.value.id not in self.local_names and f.value.id not in env:
                 imp = self.mod.imports.get(f.value.id)
                 if imp is not None:
                     if imp[0] == 'rel':
-                        target = imp[1] + '.' + imp[2]
+                        target = modjoin(imp[1], imp[2])
                         if target in self.an.w.modules:
-                            return self.static_call(self.an.w.modules[target], name, args, kw, star, env, e)
+                            return self.static_call(self.an.w.modules[target], name, args, kw, star, extra, env, e)
                         if imp[1] in self.an.w.modules and imp[2] in self.an.w.modules[imp[1]].classes:
-                            # Class.method(...) -- unbound call
-                            return self.method_call(name, EMPTY, args, kw, star, env, e, unbound=True)
-                        # a module outside the universe (parser): not run-time code
+                            return self.method_call(name, EMPTY, args, kw, star, extra, env, e, unbound=True)
                         return self.external(name, EMPTY, allargs, e, module='asn1tools.' + target)
                     return self.external(name, EMPTY, allargs, e, module=imp[1])
                 if f.value.id in self.mod.classes:
-                    return self.method_call(name, EMPTY, args, kw, star, env, e, unbound=True)
-                # a builtin type used as namespace: int.from_bytes, dict.fromkeys, bytes.fromhex ...
+                    return self.method_call(name, EMPTY, args, kw, star, extra, env, e, unbound=True)
                 if f.value.id in ('int', 'bytes', 'bytearray', 'str', 'dict', 'float', 'datetime', 'object', 'list',
                                   'set', 'tuple'):
                     if name in MUTATORS:
-                        # list.append(x, ...) style unbound mutator call
-                        if args:
+                        if args:       # list.append(x, ...): unbound mutator
                             self.ev(e.lineno, 'MutCall', name, args[0].own or [('unknown', 'unbound mutator')], e)
                         return EMPTY
                     return self.external(name, EMPTY, allargs, e, module='builtins')
             if name in FORBIDDEN_ATTRS:
                 self.ev(e.lineno, 'Unclassified', 'use of ' + name, [('unknown', name)], e)
-            # x.__class__(...): constructor of the class of x
-            if name == '__class__':
+            if name == '__class__':        # x.__class__(...): constructor of the class of x
                 self.expr(f.value, env)
-                self.ctor_from_class_of(f.value, env, args, kw, star, e)
+                self.ctor_from_class_of(args, kw, star, e)
                 return FRESHP
             recv = self.expr(f.value, env)
-            via_self = isinstance(f.value, ast.Name) and f.value.id == self.fn.self_name
-            return self.method_call(name, recv, args, kw, star, env, e, via_self=via_self)
+            via_self = isinstance(f.value, ast.Name) and f.value.id == self.fn.self_name and \
+                recv.own == frozenset([('self',)])
+            return self.method_call(name, recv, args, kw, star, extra, env, e, via_self=via_self)
         if isinstance(f, ast.Name):
             name = f.id
             if name in env or (name in self.local_names and name not in self.mod.functions and name not in self.mod.classes):
                 self.ev(e.lineno, 'Unclassified', 'call of a local/parameter value ' + name, [('unknown', 'indirect call')], e)
-                a = args_atoms() | env.get(name, EMPTY).all()
-                return P(a | {('unknown', 'indirect call')}, a)
+                return uniform(set().union(*[a.all() for a in allargs + [env.get(name, EMPTY)]]) | {('unknown', 'indirect call')})
             if name in FORBIDDEN_NAMES:
-                # setattr(obj, 'const', v) on a provably call-local object is an attribute store
                 if name in ('setattr', 'delattr') and len(e.args) >= 2 and isinstance(e.args[1], ast.Constant):
+                    # setattr(obj, 'const', v) is an attribute store
                     self.write(e.args[0], env, 'AttrStore', str(e.args[1].value), e, attr=str(e.args[1].value))
+                    if len(args) == 3:
+                        env2 = self.stored(e.args[0], args[2], env, attr=str(e.args[1].value))
+                        if env2 is not env:
+                            env.clear()
+                            env.update(env2)
                     return EMPTY
                 self.ev(e.lineno, 'Unclassified', 'call of ' + name, [('unknown', name)], e)
-                return P([('unknown', name)], [('unknown', name)])
-            return self.static_call(self.mod, name, args, kw, star, env, e)
-        # call of a call result / subscript / lambda ...
+                return uniform([('unknown', name)])
+            return self.static_call(self.mod, name, args, kw, star, extra, env, e)
         if isinstance(f, ast.Call) and isinstance(f.func, ast.Name) and f.func.id == 'type' and len(f.args) == 1:
-            self.ctor_from_class_of(f.args[0], env, args, kw, star, e)
+            self.expr(f.args[0], env)
+            self.ctor_from_class_of(args, kw, star, e)
             return FRESHP
         self.expr(f, env)
         self.ev(e.lineno, 'Unclassified', 'indirect call ' + ast.unparse(f)[:40], [('unknown', 'indirect call')], e)
-        a = args_atoms()
-        return P(a | {('unknown', 'indirect call')}, a)
+        return uniform(set().union(*[a.all() for a in allargs]) | {('unknown', 'indirect call')})
 
-    def ctor_from_class_of(self, obj_expr, env, args, kw, star, e):
-        """x.__class__(...) / type(x)(...): x is an object of the family; run every __init__ that
-        accepts the arguments (over-approximation) on a fresh self."""
+    def ctor_from_class_of(self, args, kw, star, e):
+        """x.__class__(...) / type(x)(...): a new object of some class of the family; every __init__
+        that accepts the arguments runs on it (over-approximation)"""
         for f in self.an.by_name.get('__init__', []):
             if f.accepts(len(args), list(kw), star):
-                self.an.ctor_sites.add((f.module, f.cls, self.fn.qual, e.lineno, 'via __class__'))
-                self.call_fn(f, FRESHP, args, kw, env, e)
+                self.call_fn(f, FRESHP, args, kw, e)
 
-    def static_call(self, mod, name, args, kw, star, env, e, depth=0):
+    def static_call(self, mod, name, args, kw, star, extra, env, e, depth=0):
         """call of a module-level name of [mod]"""
-        allargs = args + list(kw.values())
+        allargs = args + list(kw.values()) + extra
         if name in mod.functions:
-            f = mod.functions[name]
             if mod.name not in self.an.modnames:
                 return self.external(name, EMPTY, allargs, e, module='asn1tools.' + mod.name)
-            return self.call_fn(f, None, args, kw, env, e)
+            return self.call_fn(mod.functions[name], None, args, kw, e, extra=extra)
         if name in mod.classes:
-            return self.construct(mod, name, args, kw, star, env, e)
+            return self.construct(mod, name, args, kw, star, extra, e)
         imp = mod.imports.get(name)
         if imp is not None and depth < 5:
             if imp[0] == 'rel':
                 if imp[1] in self.an.w.modules:
-                    return self.static_call(self.an.w.modules[imp[1]], imp[2], args, kw, star, env, e, depth + 1)
+                    return self.static_call(self.an.w.modules[imp[1]], imp[2], args, kw, star, extra, env, e, depth + 1)
                 return self.external(name, EMPTY, allargs, e, module='asn1tools.' + imp[1])
             return self.external(imp[1].split('.')[-1], EMPTY, allargs, e, module=imp[1])
         if name in mod.globals:
             self.ev(e.lineno, 'Unclassified', 'call of module global ' + name, [('unknown', 'indirect call')], e)
-            return P([('unknown', 'indirect call')], [('unknown', 'indirect call')])
+            return uniform([('unknown', 'indirect call')])
         return self.external(name, EMPTY, allargs, e, module='builtins')
 
-    def construct(self, mod, cname, args, kw, star, env, e):
-        """ClassName(...) of a universe class: fresh object, its __init__ (first in the MRO
-        approximation: the class's own, else every base's) runs on it."""
-        self.an.ctor_sites.add((mod.name, cname, self.fn.qual, e.lineno, 'direct'))
-        inits = self.find_inits(mod, cname)
-        for f in inits:
-            self.call_fn(f, FRESHP, args, kw, env, e)
-        al = set()
-        for a in args + list(kw.values()):
-            al |= a.all()
-        return P([('fresh',)], al)
+    def construct(self, mod, cname, args, kw, star, extra, e):
+        """ClassName(...) of a universe class: a new object; its __init__ runs on it"""
+        for f in self.find_inits(mod, cname):
+            self.call_fn(f, FRESHP, args, kw, e, extra=extra)
+        vals = container_of(args + list(kw.values()) + extra)
+        return P([FRESH_ATOM], (), vals.elems | vals.fields | {FRESH_ATOM})
 
     def find_inits(self, mod, cname, seen=None):
-        seen = seen or set()
+        seen = seen if seen is not None else set()
         if (mod.name, cname) in seen:
             return []
         seen.add((mod.name, cname))
@@ -1159,50 +1523,41 @@ class FnRun(object):
             return [f]
         out = []
         for b in mod.classes[cname].bases:
-            r = self.an.resolve_class_expr(mod, b)
+            r = self.an.w.resolve_class(mod, b)
             if r:
                 out += self.find_inits(self.an.w.modules[r[0]], r[1], seen)
         return out
 
-    def method_call(self, name, recv, args, kw, star, env, e, via_self=False, unbound=False, external_ok=True):
-        allargs = args + list(kw.values())
+    def method_call(self, name, recv, args, kw, star, extra, env, e, via_self=False, unbound=False, external_ok=True):
+        allargs = args + list(kw.values()) + extra
         res = None
-        cands = [f for f in self.an.by_name.get(name, [])]
+        cands = list(self.an.by_name.get(name, []))
+        if unbound and args:               # Class.method(obj, ...): the first argument is the receiver
+            recv, args = args[0], args[1:]
+        if via_self and self.fn.cls:
+            rel = self.an.w.mro_related((self.fn.module, self.fn.cls))
+            cands = [f for f in cands if (f.module, f.cls) in rel]
         matched = False
-        if unbound:
-            # Class.method(obj, ...): first argument is the receiver
-            if args:
-                recv, args = args[0], args[1:]
         for f in cands:
-            if not f.is_method:
-                if f.accepts(len(args), list(kw), star):
-                    matched = True
-                    r = self.call_fn(f, None, args, kw, env, e)
-                    res = r if res is None else join(res, r)
-                continue
             if f.accepts(len(args), list(kw), star):
                 matched = True
-                r = self.call_fn(f, recv, args, kw, env, e, via_self=via_self)
+                r = self.call_fn(f, recv if f.is_method else None, args, kw, e, via_self=via_self, extra=extra)
                 res = r if res is None else join(res, r)
-        # an attribute holding a function (documented indirect calls)
-        if not matched and name in INDIRECT:
+        if not matched and name in INDIRECT:       # an attribute holding a function (documented)
             for f in self.an.funcs_by_name.get(INDIRECT[name], []):
                 matched = True
-                r = self.call_fn(f, None, args, kw, env, e)
+                r = self.call_fn(f, None, args, kw, e, extra=extra)
                 res = r if res is None else join(res, r)
             return res if res is not None else EMPTY
         if name in MUTATORS:
-            atoms = set(recv.own)
-            if not atoms and not matched:
-                atoms = set()      # receiver is a constant-like value: nothing shared is written
-            if atoms:
-                self.ev(e.lineno, 'MutCall', name, atoms, e)
-                # what is stored becomes reachable from the receiver
+            if recv.own:
+                self.ev(e.lineno, 'MutCall', name, recv.own, e)
                 if isinstance(e.func, ast.Attribute):
                     for a in allargs:
-                        env2 = self.taint(e.func.value, a, env)
-                        env.clear()
-                        env.update(env2)
+                        env2 = self.stored(e.func.value, a, env)
+                        if env2 is not env:
+                            env.clear()
+                            env.update(env2)
             r = recv.elem() if name in MUT_RETURNS_ELEM else EMPTY
             return r if res is None else join(res, r)
         if external_ok and (not matched or name in PURE_FRESH or name in VIEWS or name in ELEMENTS):
@@ -1210,107 +1565,110 @@ class FnRun(object):
             res = r if res is None else join(res, r)
         elif not matched:
             self.ev(e.lineno, 'Unclassified', 'unresolved method ' + name, [('unknown', 'unresolved call')], e)
-            res = P([('unknown', 'unresolved')], [('unknown', 'unresolved')])
+            res = uniform([('unknown', 'unresolved')])
         return res if res is not None else EMPTY
 
     def external(self, name, recv, args, e, module=None):
         """a callable outside the universe"""
-        shared = set()
-        for a in [recv] + list(args):
-            shared |= self.conc(a.all())
-        shared -= {FRESH, EXC}
         if module is not None and module.startswith('asn1tools.'):
-            # another asn1tools module (parser, other codec): not analysed -> fail closed if reached with
-            # anything at all (it could touch its own globals)
             self.ev(e.lineno, 'Unclassified', 'call into unanalysed module ' + module + '.' + name,
                     [('unknown', 'unanalysed module')], e)
-            return P([('unknown', 'unanalysed')], [('unknown', 'unanalysed')])
+            return uniform([('unknown', 'unanalysed')])
         if name in FORBIDDEN_NAMES:
             self.ev(e.lineno, 'Unclassified', 'call of ' + name, [('unknown', name)], e)
         if name in PURE_FRESH:
-            return FRESHP if name not in ('len', 'isinstance', 'bool', 'int', 'float', 'ord', 'hash', 'id',
-                                          'hasattr', 'callable', 'issubclass') else EMPTY
-        al = set()
-        ow = set()
-        for a in [recv] + list(args):
-            al |= a.flat().elems
-            ow |= a.own
-        if name in VIEWS:
-            return P([('fresh',)], al)
+            return FRESHP
+        every = [recv] + list(args)
+        if name in VIEWS:                   # a new container / iterator over the same elements
+            el, fi = set(), set()
+            for a in every:
+                a = a.flat()
+                el |= a.elems
+                fi |= a.fields
+            return P([FRESH_ATOM], el, fi)
         if name in ELEMENTS:
-            # get(k, default) / getattr(o, n, default) / max(a, b): an element of the receiver, or an argument
-            o = set(al)
+            # get(k, default) / getattr(o, n, default) / max(a, b) / next(it): an element (attribute) of
+            # the receiver / first argument, or one of the arguments themselves
+            o = set()
+            for a in every:
+                a = a.flat()
+                o |= a.elems | a.fields
             for a in args:
                 o |= a.own
-            if name in ('max', 'min', 'next', 'getattr', 'cast'):
+            if name in ('max', 'min', 'cast'):
                 o |= recv.own
-            return P(o, al)
-        # unknown external callable: if anything shared is passed it might be mutated -> fail closed
+            return uniform(o)
+        # unknown external callable: it might mutate what it is given -> fail closed if that is shared
         self.an.unknown_ext.add((name, module or ''))
+        al = set()
+        for a in every:
+            al |= a.all()
+        shared = self.conc(al) - {FRESH, EXC}
         if shared:
-            self.ev(e.lineno, 'Unclassified', 'external callable %s%s with a shared argument' % (
-                (module + '.') if module else '.', name), [('unknown', 'external ' + name)], e)
-        return P(ow | al, ow | al)
+            self.ev(e.lineno, 'Unclassified', 'external callable %s.%s with a possibly shared argument' % (module or '', name),
+                    [('unknown', 'external ' + name)], e)
+        return uniform(al | {FRESH_ATOM})
 
-    def call_fn(self, f, recv, args, kw, env, e, via_self=False):
-        """bind arguments, push inflow, return the instantiated return summary"""
+    def call_fn(self, f, recv, args, kw, e, via_self=False, extra=()):
+        """bind arguments, push inflow to the callee, return its instantiated return summary"""
         binding = {}
         pos = list(f.pos)
-        flat_extra = EMPTY
+        rest = list(extra)
         for i, a in enumerate(args):
             if i < len(pos):
                 binding[pos[i]] = a
             else:
-                flat_extra = join(flat_extra, P(a.all(), a.all()))
+                rest.append(a)
         for k, v in kw.items():
             if k in pos or k in f.kwonly:
                 binding[k] = v
             else:
-                flat_extra = join(flat_extra, P(v.all(), v.all()))
-        if f.vararg:
-            binding[f.vararg] = P([('fresh',)], flat_extra.all())
-        if f.kwarg:
-            binding[f.kwarg] = join(binding.get(f.kwarg, EMPTY), P([('fresh',)], flat_extra.all()))
+                rest.append(v)
+        if rest:
+            bag = container_of(rest)
+            for p in (f.vararg, f.kwarg):
+                if p:
+                    binding[p] = join(binding.get(p, EMPTY), bag)
+            if extra:                       # *args / **kwargs at the call site may fill any parameter
+                spread = container_of(extra).elem()
+                for p in pos + f.kwonly:
+                    if p not in binding:
+                        binding[p] = spread
         flow = {}
         if f.is_method:
-            r = recv if recv is not None else EMPTY
-            if via_self:
-                flow['self'] = self.an.inflow.get(self.fn.qual, {}).get('self', EMPTY)
-            else:
-                flow['self'] = self.concP(r)
+            flow['self'] = self.an.self_flow(f)
         for p, v in binding.items():
             flow[p] = self.concP(v)
-        self.an.add_inflow(f, flow)
-        # instantiate the return summary
+        self.an.add_inflow(f, flow, (self.fn.qual, getattr(e, 'lineno', 0)))
         ret = self.an.returns.get(f.qual)
         if ret is None:
             return EMPTY
-        return self.subst(ret, f, recv, binding, via_self)
+        return self.subst(ret, recv, binding, via_self)
 
-    def subst(self, ret, f, recv, binding, via_self):
+    def subst(self, ret, recv, binding, via_self):
+        rf = recv.flat() if recv is not None else EMPTY
+
         def sub(atoms):
             out = set()
             for a in atoms:
-                if a[0] in ('fresh', 'exc', 'global', 'unknown'):
-                    out.add(a)
-                elif a[0] == 'self':
-                    if recv is not None:
-                        out |= recv.own
-                elif a[0] == 'selfattr':
+                t = a[0]
+                if t == 'self':
+                    out |= rf.own
+                elif t in ('selfattr', 'selfattr*'):
                     if via_self:
                         out.add(a)
-                    elif recv is not None:
-                        out |= recv.flat().elems
-                elif a[0] == 'param':
+                    else:
+                        out |= rf.fields | rf.elems
+                elif t == 'param':
                     b = binding.get(a[1])
                     if b is not None:
-                        out |= (b.own if a[2] == 'own' else b.flat().elems)
+                        out |= getattr(b.flat(), a[2])
                 else:
                     out.add(a)
             return out
 
         def go(p):
-            return P(sub(p.own), sub(p.elems), [go(i) for i in p.items] if p.items is not None else None)
+            return P(sub(p.own), sub(p.elems), sub(p.fields), [go(i) for i in p.items] if p.items is not None else None)
         return go(ret)
 
 
@@ -1323,7 +1681,6 @@ SHARED_KINDS = ('SelfAttr', 'SharedAlias', 'Global', 'InputValue', 'Unknown')
 def classify(an, ev):
     """-> list of (receiver constructor, argument) for one event"""
     run = FnRun(an, ev.fn)
-    flow = an.inflow.get(ev.fn.qual, {})
     out = set()
     for a in ev.atoms:
         if a[0] == 'unknown':
@@ -1338,37 +1695,64 @@ def classify(an, ev):
         if a[0] == 'exc':
             out.add(('CallLocalObject', 'exception in flight'))
             continue
-        if a[0] in ('selfstore', 'selfattr', 'self'):
-            roots = flow.get('self', EMPTY).own if a[0] != 'selfattr' else flow.get('self', EMPTY).elems
-            if a[0] == 'selfstore':
-                roots = flow.get('self', EMPTY).own
+        if a[0] == 'selfstore':
+            roots = run.conc([('self',)])
+            name, what, via_self = a[1], 'self.' + a[1], True
+        elif a[0] in ('selfattr', 'selfattr*', 'self'):
+            roots = run.conc([a])
             name = a[1] if len(a) > 1 else 'self'
-            what = 'self.' + name
+            what, via_self = 'self.' + name, True
         elif a[0] == 'param':
-            p = flow.get(a[1], EMPTY)
-            roots = p.own if a[2] == 'own' else p.elems
-            name = a[1]
-            what = a[1]
+            roots = run.conc([a])
+            name, what, via_self = a[1], a[1], False
         else:
             out.add(('Unknown', 'atom %r' % (a,)))
             continue
         if not roots:
-            # never bound by any analysed caller: dead parameter / method only reachable by name
-            out.add(('CallLocalObject', what + ' (no caller passes an object)'))
+            # never bound by any analysed caller / only constants are ever stored
+            out.add(('CallLocalObject', what + ' (no object flows here)'))
         for r in roots:
             if r == SPEC:
-                out.add(('SelfAttr', name) if a[0] in ('selfstore', 'selfattr', 'self') else ('SharedAlias', name))
+                out.add(('SelfAttr', name) if via_self else ('SharedAlias', name))
             elif r == INPUT:
                 out.add(('InputValue', what))
             elif r in (FRESH, EXC):
-                out.add(('CallLocalObject', what + (' (exception in flight)' if r == EXC else '')))
+                out.add(('CallLocalObject', what))
             elif isinstance(r, tuple) and r[0] == 'global':
                 out.add(('Global', '%s.%s' % (r[1], r[2])))
             elif isinstance(r, tuple) and r[0] == 'unknown':
                 out.add(('Unknown', r[1]))
             else:
                 out.add(('Unknown', 'root %r' % (r,)))
-    return sorted(out)
+    loc = sorted(x for x in out if x[0] == 'CallLocalObject')
+    rest = sorted(x for x in out if x[0] != 'CallLocalObject')
+    if loc:
+        rest.append(('CallLocalObject', loc[0][1].split(' (')[0]))
+    return rest
+
+
+def compute_call_local(world, reach_all):
+    """Classes whose instances exist only during one top-level call: the class and all its
+    subclasses are constructed somewhere, and every constructor call is inside a function that
+    runs at encode/decode/check time or is the operand of a raise statement (the object is thrown,
+    not kept).  Given that no run-time function writes to shared state (the very table this
+    analysis produces), such an object cannot survive the call that allocated it."""
+    subs = world.hierarchy()
+    ctors = world.ctor_sites()
+    raised = set()
+    for m in world.modules.values():
+        for n in ast.walk(m.tree):
+            if isinstance(n, ast.Raise) and isinstance(n.exc, ast.Call):
+                r = world.resolve_class(m, n.exc.func)
+                if r:
+                    raised.add((r, n.exc.lineno))
+    out, evid = set(), {}
+    for k, ss in subs.items():
+        sites = [(c, where, line) for c in ss for (where, line) in ctors.get(c, [])]
+        if sites and all(where in reach_all or (c, line) in raised for c, where, line in sites):
+            out.add(k)
+            evid[k] = sorted(set((where, line) for c, where, line in sites))
+    return frozenset(out), evid
 
 
 def analyse(repo):
@@ -1385,43 +1769,61 @@ def analyse(repo):
     for m in world.modules.values():
         for line, what in m.toplevel_unknown:
             problems.append((m.name, '', '<module>', line, what))
+    # phase 1: what is reachable (the name-based call graph does not depend on provenance)
+    reach_all = set()
     for codec in CODECS:
-        an = Analysis(world, codec).run()
+        reach_all |= set(Analysis(world, codec).run().reach)
+    call_local, local_evidence = compute_call_local(world, reach_all)
+    for codec in CODECS:
+        an = Analysis(world, codec, call_local).run()
         reach_by_family[codec] = len(an.reach)
         unknown_ext |= an.unknown_ext
         for q, f in an.reach.items():
             methods.setdefault((q[0], q[1]), set()).add(q[2])
-            if f.cls:
-                s = an.inflow[q].get('self', EMPTY)
-                roots = s.own
-                only = bool(roots) and roots <= {FRESH, EXC}
-                k = (q[0], q[1])
-                fresh_only[k] = fresh_only.get(k, True) and only
+            if f.cls and (q[0], q[1]) in call_local:
+                fresh_only[(q[0], q[1])] = local_evidence[(q[0], q[1])]
         for q, evs in an.events.items():
             for ev in evs.values():
                 for recv, arg in classify(an, ev):
                     if recv == 'LocalFresh':
-                        local_fresh[q[0]] = local_fresh.get(q[0], 0) + 1
+                        local_fresh.setdefault(q[0], set()).add((ev.line, ev.kind, ev.detail))
                         continue
                     kind = ev.kind if ev.kind != 'Unclassified' else 'Unclassified'
                     if ev.kind == 'Unclassified':
                         recv, arg = 'Unknown', ev.detail
                     table[(q[0], q[1], q[2], kind, ev.detail if ev.kind != 'Unclassified' else '', recv, arg, ev.line)] = ev.text
-        for c in an.ctor_sites:
-            ctor.add(c)
         greads |= an.global_reads
+    local_fresh = {k: len(v) for k, v in local_fresh.items()}
+    # the Compiler classes are compile-time code: none of their methods may be reachable at run time
+    subs = world.hierarchy()
+    for (mname, cname) in sorted(subs.get(('codecs.compiler', 'Compiler'), ())):
+        for n in sorted(methods.get((mname, cname), ())):
+            problems.append((mname, cname, n, 0, 'method of a Compiler class reachable at run time'))
+    for (where, line) in world.ctor_sites().get(('compiler', 'Specification'), []):
+        if where[0] != 'compiler':
+            problems.append((where[0], where[1], where[2], line, 'Specification constructed outside asn1tools/compiler.py'))
+    # the documented indirect call: Specification._decode_length is <codec module>.decode_full_length
+    cd = world.modules['compiler'].functions.get('compile_dict')
+    okind = False
+    if cd is not None:
+        for n in ast.walk(cd.node):
+            if isinstance(n, ast.Call) and isinstance(n.func, ast.Name) and n.func.id == 'Specification' \
+                    and len(n.args) >= 2 and ast.unparse(n.args[1]) == 'codec.decode_full_length':
+                okind = True
+    init = world.modules['compiler'].methods.get(('Specification', '__init__'))
+    okstore = init is not None and any(
+        isinstance(n, ast.Assign) and ast.unparse(n) == 'self._decode_length = decode_length' for n in ast.walk(init.node))
+    if not (okind and okstore):
+        problems.append(('compiler', 'Specification', 'decode_length', 0,
+                         'indirect call self._decode_length no longer bound to codec.decode_full_length'))
     return world, table, methods, fresh_only, ctor, greads, local_fresh, unknown_ext, reach_by_family, problems
 
 
 def evidence(world, methods, fresh_only, ctor):
     """Classes whose objects are fresh per top-level call + the allocation sites."""
     out = []
-    for (mod, cls), only in sorted(fresh_only.items()):
-        if not only:
-            continue
-        sites = sorted((q, line, how) for (m, c, q, line, how) in ctor if (m, c) == (mod, cls))
-        # subclasses / base classes share constructor sites (uper.Encoder is per.Encoder ...)
-        out.append((mod, cls, sites))
+    for (mod, cls), sites in sorted(fresh_only.items()):
+        out.append((mod, cls, [(q, line, 'ctor') for q, line in sites]))
     return out
 
 
@@ -1473,8 +1875,8 @@ def emit(repo, out_v, out_json=None):
     stale = []
     for (mod, fn, text), why in benign:
         m = world.modules.get(mod)
-        f = m.functions.get(fn) if m else None
-        if f is None or not any(isinstance(n, ast.AugAssign) and ast.unparse(n) == text for n in ast.walk(f.node)):
+        fs = ([m.functions[fn]] if fn in m.functions else []) + [g for (c, n), g in m.methods.items() if n == fn] if m else []
+        if not any(isinstance(n, ast.AugAssign) and ast.unparse(n) == text for f in fs for n in ast.walk(f.node)):
             stale.append((mod, fn, text))
     L = []
     A = L.append
@@ -1525,9 +1927,10 @@ def emit(repo, out_v, out_json=None):
     A('')
     A('(** Classes all of whose reachable methods only ever run on objects allocated during the')
     A('    same top-level call, with the allocation sites (module, class, function, line). *)')
-    A('Definition fresh_classes : list (string * string * list (string * string * string * Z)) := [')
-    A(';\n'.join('  (%s, %s, [%s])' % (coq_str(m), coq_str(c), '; '.join(
-        '(%s, %s, %s, %d)' % (coq_str(q[0]), coq_str(q[1]), coq_str(q[2]), line) for q, line, how in sites))
+    A('(*  (module, class, number of constructor sites, the first of them (module, class, function, line)) *)')
+    A('Definition fresh_classes : list (string * string * Z * list (string * string * string * Z)) := [')
+    A(';\n'.join('  (%s, %s, %d, [%s])' % (coq_str(m), coq_str(c), len(sites), '; '.join(
+        '(%s, %s, %s, %d)' % (coq_str(q[0]), coq_str(q[1]), coq_str(q[2]), line) for q, line, how in sites[:4]))
         for m, c, sites in ev))
     A('].')
     A('')
